@@ -762,6 +762,32 @@ protected:
                 {
                     outputNewline();
                 }
+                else if (XalanUnicode::charCR == theChar ||
+                         (XMLVersion == XML_VERSION_1_1 &&
+                          (m_charPredicate.isCharRefForbidden(theChar) ||
+                           XalanUnicode::charNEL == theChar ||
+                           XalanUnicode::charLSEP == theChar)))
+                {
+                    // A parser would turn CR, NEL and LSEP into a line feed,
+                    // and XML 1.1 wants its restricted characters written as
+                    // references.  A CDATA section has no escape, so leave
+                    // the section for a character reference.
+                    if (outsideCDATA == false)
+                    {
+                        m_writer.write(
+                            m_constants.s_cdataCloseString,
+                            m_constants.s_cdataCloseStringLength);
+                    }
+
+                    writeNumericCharacterReference(theChar);
+
+                    if (outsideCDATA == false)
+                    {
+                        m_writer.write(
+                            m_constants.s_cdataOpenString,
+                            m_constants.s_cdataOpenStringLength);
+                    }
+                }
                 else if(m_charPredicate.isCharRefForbidden(theChar))
                 {
                      throwInvalidXMLCharacterException(
